@@ -38,7 +38,7 @@ theorem nodup_of_distinct : ∀ (n : Nat) (l : List String), l.length ≤ n → 
 /-- the agreement statement for the binding list of a `let`, in the middle of the parser's loop -/
 def AgreeBindsAt (env : SEnv) (ρ : List (String × Sym)) (bs : List Sexp) : Prop :=
   ∀ (sc : List Binding) (Γc : PEnv) (seen : List String) (delayed : List (String × Parser.Val)),
-    Corr env sc Γc → MgrLe Γc.mgr ρ →
+    Corr env sc Γc → MgrLe Γc.mgr ρ → rotBinds env sc bs = true →
     ∀ new, rdBindings env sc bs = .ok new → (∀ b ∈ new, bindingName b ∉ seen) → (new.map bindingName).Nodup →
       (∀ d ∈ delayed, d.1 ∈ seen) →
     ∃ Γ', rdLetBinds Γc seen delayed bs = .ok Γ' ∧ MgrLe Γ'.mgr ρ ∧ Γ'.intArith = Γc.intArith ∧ allLet new = true ∧
@@ -48,7 +48,7 @@ def AgreeBindsAt (env : SEnv) (ρ : List (String × Sym)) (bs : List Sexp) : Pro
       (∀ n, letFind n new = none → lookup n Γ'.binds = lookup n (delayed ++ Γc.binds))
 
 theorem agreeB_nil (env : SEnv) (ρ : List (String × Sym)) : AgreeBindsAt env ρ [] := by
-  intro sc Γc seen delayed _ hm new h _ _ _
+  intro sc Γc seen delayed _ hm _ new h _ _ _
   simp only [rdBindings, Except.ok.injEq] at h
   subst h
   refine ⟨_, rdLetBinds_nil Γc seen delayed, hm, rfl, rfl, ?_, ?_⟩
@@ -84,7 +84,8 @@ theorem letFind_none_of_not_mem {n : String} : ∀ {new : List Binding}, n ∉ n
 theorem agreeB_cons (env : SEnv) (ρ : List (String × Sym)) (x : String) (e : Sexp) (rest : List Sexp)
     (hx : letNameOK env x = true) (hE : AgreeAt env ρ e) (hR : AgreeBindsAt env ρ rest) :
     AgreeBindsAt env ρ (.list [.atom x, e] :: rest) := by
-  intro sc Γc seen delayed hc hm new h hseen hnd hdel
+  intro sc Γc seen delayed hc hm hro new h hseen hnd hdel
+  rw [rotBinds_cons, Bool.and_eq_true] at hro
   unfold letNameOK at hx
   simp only [rdBindings] at h
   cases hsn : symName? x with
@@ -108,7 +109,7 @@ theorem agreeB_cons (env : SEnv) (ρ : List (String × Sym)) (x : String) (e : S
           subst h
           simp only [List.map_cons, bindingName, List.nodup_cons] at hnd
           have hns : n ∉ seen := hseen (.letb n t ty) (by simp)
-          obtain ⟨σ1, hv, hm1, htok⟩ := hE sc Γc false hc hm t ty he
+          obtain ⟨σ1, hv, hm1, htok⟩ := hE sc Γc false hc hm hro.1 t ty he
           have hseen' : ∀ b ∈ bs', bindingName b ∉ n :: seen := by
             intro b hb hmem
             simp only [List.mem_cons] at hmem
@@ -123,7 +124,7 @@ theorem agreeB_cons (env : SEnv) (ρ : List (String × Sym)) (x : String) (e : S
             have hc1 : Corr env sc { Γc with binds := (n, .term (mkNorm t)) :: Γc.binds, mgr := σ1 } :=
               corr_mgr (corr_fresh hc n _ hlk hpn) σ1
             obtain ⟨Γ', hrl, hm', hia, hal, hnew, hold⟩ :=
-              hR sc _ (n :: seen) delayed hc1 hm1 bs' hrb hseen' hnd.2
+              hR sc _ (n :: seen) delayed hc1 hm1 hro.2 bs' hrb hseen' hnd.2
                 (fun d hd => List.mem_cons_of_mem _ (hdel d hd))
             refine ⟨Γ', ?_, hm', hia, by simpa [allLet] using hal, ?_, ?_⟩
             · rw [rdLetBinds]
@@ -153,7 +154,7 @@ theorem agreeB_cons (env : SEnv) (ρ : List (String × Sym)) (x : String) (e : S
                 cases lookup m delayed <;> rfl
           | some w =>
             obtain ⟨Γ', hrl, hm', hia, hal, hnew, hold⟩ :=
-              hR sc { Γc with mgr := σ1 } (n :: seen) ((n, .term (mkNorm t)) :: delayed) (corr_mgr hc σ1) hm1 bs' hrb hseen'
+              hR sc { Γc with mgr := σ1 } (n :: seen) ((n, .term (mkNorm t)) :: delayed) (corr_mgr hc σ1) hm1 hro.2 bs' hrb hseen'
                 hnd.2 (by
                   intro d hd
                   simp only [List.mem_cons] at hd ⊢
@@ -203,7 +204,8 @@ theorem rd_let (env : SEnv) (sc : List Binding) (rest : List Sexp) :
 theorem agree_let (env : SEnv) (ρ : List (String × Sym)) (bs : List Sexp) (body : Sexp)
     (hBs : AgreeBindsAt env ρ bs) (hB : AgreeAt env ρ body) :
     AgreeAt env ρ (.list [.atom "let", .list bs, body]) := by
-  intro sc Γ lone hc hm u τ h
+  intro sc Γ lone hc hm hro u τ h
+  rw [RotOK_let, rotLet_eq, Bool.and_eq_true] at hro
   rw [rd_let, rdLet] at h
   cases hrb : rdBindings env sc bs with
   | error e => simp [hrb] at h
@@ -218,13 +220,15 @@ theorem agree_let (env : SEnv) (ρ : List (String × Sym)) (bs : List Sexp) (bod
         have hnd : (new.map bindingName).Nodup :=
           nodup_of_distinct _ _ (Nat.le_refl _) (by simpa using hdist)
         obtain ⟨Γ', hrl, hm', hia, hal, hnew, hold⟩ :=
-          hBs sc Γ [] [] hc hm new hrb (by simp) hnd (by simp)
+          hBs sc Γ [] [] hc hm hro.1 new hrb (by simp) hnd (by simp)
         have hc' : Corr env (new ++ sc) Γ' := by
           have := corr_mgr (corr_let hc new hal Γ'.binds hnew (fun n hn => by simpa using hold n hn)) Γ'.mgr
           have e : ({ Γ with binds := Γ'.binds, mgr := Γ'.mgr } : PEnv) = Γ' := by
             cases Γ'; cases Γ; simp_all
           rw [← e]; exact this
-        obtain ⟨σ', hbody, hm'', htok⟩ := hB (new ++ sc) Γ' false hc' hm' u τ h
+        have hro2 := hro.2
+        simp only [hrb] at hro2
+        obtain ⟨σ', hbody, hm'', htok⟩ := hB (new ++ sc) Γ' false hc' hm' hro2 u τ h
         refine ⟨σ', ?_, hm'', htok⟩
         rw [rdVal_let]
         have hbne : ∃ b bs', bs = b :: bs' := by
